@@ -2,6 +2,7 @@ SPECIFICATION Spec
 CONSTANTS
   MaxCalls = 2
   MaxFrames = 3
+  MaxReqs = 0
   DeleteOnLookup = TRUE
   Record = TRUE
 VIEW scriptview
